@@ -215,7 +215,7 @@ func main() {
 		for {
 			f := connfake.OpByName(followers[r.Intn(len(followers))])
 			if f.Name == "apiVersions" {
-				continue
+				continue // a scripted ApiVersions response would be taken by the version negotiation of the first operation
 			}
 			v := f.Versions[r.Intn(len(f.Versions))]
 			if f.Key == a.op.Key {
@@ -294,12 +294,9 @@ func main() {
 	}
 	// framing errors: a fully delivered frame whose body is NOT an encoding of the layout (trailing bytes, or the
 	// last bytes missing with a consistent size prefix): "after a framing error every later operation fails".
-	// ApiVersions (no expectZeroSize in the Go code) and list-offsets with an error code (kafka error returned
-	// from inside the partition loop, see Props/C11 listOffsets_two_partitions_counterexample) are left out.
+	// List-offsets with an error code (kafka error returned from inside the partition loop, see Props/C11
+	// listOffsets_two_partitions_counterexample) is left out.
 	for _, op := range connfake.Ops {
-		if op.Name == "apiVersions" {
-			continue
-		}
 		for _, v := range op.Versions {
 			for rep := 0; rep < 2; rep++ {
 				for _, withErr := range []bool{false, true} {
@@ -332,7 +329,7 @@ func main() {
 		nfuzz = 80
 	}
 	for _, op := range connfake.Ops {
-		if op.Name == "apiVersions" || op.Name == "fetch" {
+		if op.Name == "fetch" {
 			continue
 		}
 		for _, v := range op.Versions {
@@ -421,7 +418,7 @@ func main() {
 	// (io.ErrNoProgress, nothing consumed): every later operation must fail too — promptly.  Three operations in a row.
 	nchain := 0
 	for _, op := range connfake.Ops {
-		if op.Name == "apiVersions" || op.Name == "fetch" || nslow >= 5 {
+		if op.Name == "apiVersions" || op.Name == "fetch" || nslow >= 5 { // (same remark: responses are scripted per api key)
 			continue
 		}
 		for _, v := range op.Versions {
